@@ -237,7 +237,10 @@ def handleGlue (args : List String) : Option String :=
       | some u =>
         let written := strList pkgsF ++ strList extraF
         let w := Glue.world (strList pkgsF) (strList extraF)
-        let r := resolve (cfgOf u) w (disqualifyDifference archs (str self))
+        -- the answer for the repository state of the request, from scratch (`Glue.freshAnswer`; for a request that
+        -- is one round of a history on one MultiArch value, `GlueRounds.round_history_free` says the round model has
+        -- no other answer)
+        let r := Glue.freshAnswer cfgOf w archs (str self)
         let flags := match r with | .ok x => x.flags | _ => []
         let modelSet := match r with | .ok x => x.install | _ => []
         let anyErr := archs.any fun (a, ua) =>
